@@ -212,6 +212,7 @@ class AuditLog:
 
     def __init__(self):
         self.root = None
+        self.roots = []
         self.events = []
         self.lock = threading.Lock()
 
@@ -231,7 +232,8 @@ class AuditLog:
             path, mode, flags = args[0], args[1], args[2]
             if isinstance(path, (str, bytes)) :
                 p = os.fsdecode(path)
-                if p.startswith(root):
+                root = next((r for r in self.roots if p.startswith(r + os.sep)), None)
+                if root is not None:
                     write = bool(flags & (os.O_WRONLY | os.O_RDWR | os.O_APPEND | os.O_CREAT | os.O_TRUNC)) if isinstance(flags, int) else any(c in (mode or "") for c in "wax+")
                     self.events.append(("open", os.path.relpath(p, root), mode, "w" if write else "r"))
         elif event in ("os.rename", "os.remove", "os.truncate", "os.unlink", "shutil.move", "os.rmdir", "os.mkdir"):
@@ -239,11 +241,13 @@ class AuditLog:
                 p = os.fsdecode(args[0])
             except Exception:
                 return
-            if p.startswith(root):
+            root = next((r for r in self.roots if p.startswith(r + os.sep)), None)
+            if root is not None:
                 self.events.append((event, os.path.relpath(p, root), None, "w"))
 
-    def begin(self, root):
+    def begin(self, root, aliases=()):
         self.root = os.path.realpath(root)
+        self.roots = [self.root] + [a.rstrip(os.sep) for a in aliases]
         self.events = []
 
     def end(self):
